@@ -8,7 +8,7 @@
    those calls wrote onto its virtual time axis right after the call (hook VerifRebaseStamps), so the
    expiry and last-access stamp of every entry are compared exactly as well, and refresh ticks can sit
    exactly on the idle / expiry boundaries. *)
-From GS Require Export Base.Bytes Base.CorrLib Model.InstanceCache.
+From GS Require Export Base.Bytes Base.CorrLib Model.InstanceCache Model.InstanceDispatcher.
 From stdpp Require Import gmap.
 Local Open Scope Z_scope.
 
@@ -27,7 +27,27 @@ Record obs := Obs {
   o_return : list info                        (* ccp.toReturnInfo in Go order *)
 }.
 
-Record c12case := Case { k_cfg : config; k_steps : list (label * obs) }.
+(* Second kind of case: the real dispatcher loop (cloudProviderLookupDispatcher.run, started through the hook
+   VerifRunDispatcher on channels the harness owns) driven event by event by a single harness goroutine.  Every
+   event is a rendezvous with the loop's goroutine, so the recorded order is the order in which the loop did
+   these things.  Coq decides whether the trace is a run of Model/InstanceDispatcher.v, inserting the steps
+   that cannot be observed (timer, limiter, run / doLookup noticing ctx.Done). *)
+Inductive devent :=
+| ERecv (s : source)                                     (* a send on ipSource completed *)
+| ECall (ips : list source) (res : result) (err : bool)  (* Instance(ips...) was called and answered res, err *)
+| EInfo (i : info)                                       (* an InstanceInfo was received from infoSink *)
+| ECancel                                                (* the harness cancelled the context *)
+| EStopped                                               (* run returned *)
+| EPanic                                                 (* run panicked *)
+| EIdle.                                                 (* the harness waited for the loop, nothing came *)
+
+Inductive c12case :=
+| Case (k_cfg : config) (k_steps : list (label * obs))
+  (* limit, "the limiter can never grant" (burst 0), the trace *)
+| DispCase (lim : Z) (lim_fails : bool) (evs : list devent)
+  (* goroutine-level run of Run + dispatcher: the provider calls in order; they must be the calls of a run of
+     the loop that receives exactly these sources *)
+| AsyncCase (lim : Z) (calls : list (list source)).
 
 Definition inst_eqb (a b : instance) : bool :=
   str_eqb (i_id a) (i_id b) && list_eqb str_eqb (i_tags a) (i_tags b).
@@ -90,8 +110,82 @@ Fixpoint first_bad (c : config) (st : state) (n : N) (steps : list (label * obs)
       end
   end.
 
+(* ---- traces of the dispatcher loop ---------------------------------------------------------------- *)
+
+Definition dbind {A B} (o : option A) (f : A -> option B) : option B := match o with Some x => f x | None => None end.
+
+(* unobservable steps that bring the loop into the provider call *)
+Definition silent_to_call (lim : Z) (fails : bool) (d : dstate) : option dstate :=
+  if fails then None else
+  match d_phase d with
+  | DSelect => if d_armed d then dbind (dstep lim d DTimer) (λ d1, dstep lim d1 DLimit) else None
+  | DLimiter => dstep lim d DLimit
+  | _ => None
+  end.
+
+(* unobservable steps that make run return *)
+Definition silent_to_stop (lim : Z) (fails : bool) (d : dstate) : option dstate :=
+  match d_phase d with
+  | DSelect => if d_cancelled d then dstep lim d DStop
+               else if d_armed d && fails then dbind (dstep lim d DTimer) (λ d1, dstep lim d1 DLimitErr)
+               else None
+  | DLimiter => if d_cancelled d || fails then dstep lim d DLimitErr else None
+  | DSending => if d_cancelled d then dbind (dstep lim d DAbandon) (λ d1, dstep lim d1 DStop) else None
+  | _ => None
+  end.
+
+Definition devent_step (lim : Z) (fails : bool) (d : dstate) (e : devent) : option dstate :=
+  match e with
+  | ERecv s => dstep lim d (DRecv s)
+  | ECall ips res err =>
+      dbind (silent_to_call lim fails d) (λ d1,
+        if list_eqb str_eqb ips (d_ips d1) then dstep lim d1 (DCall res err) else None)
+  | EInfo i => match d_tosend d with
+               | i' :: _ => if info_eqb i i' then dstep lim d DSend else None
+               | [] => None
+               end
+  | ECancel => dstep lim d DCancel
+  | EStopped => silent_to_stop lim fails d
+  | EPanic => match d_phase d with DPanicked => Some d | _ => None end
+  | EIdle => match d_phase d with
+             | DSelect => if d_armed d || d_cancelled d then None else Some d
+             | DStopped | DPanicked => Some d
+             | _ => None
+             end
+  end.
+
+Fixpoint dtrace_bad (lim : Z) (fails : bool) (d : dstate) (n : N) (evs : list devent) : option (N * dstate) :=
+  match evs with
+  | [] => None
+  | e :: r => match devent_step lim fails d e with
+              | Some d' => dtrace_bad lim fails d' (N.succ n) r
+              | None => Some (n, d)
+              end
+  end.
+
+(* the goroutine-level stream: one provider call = receive its sources, leave the select (timer unless the batch
+   is full), limiter, call, send every answer *)
+Fixpoint dfeed (lim : Z) (d : dstate) (ips : list source) : option dstate :=
+  match ips with [] => Some d | s :: r => dbind (dstep lim d (DRecv s)) (λ d1, dfeed lim d1 r) end.
+Fixpoint ddrain (lim : Z) (d : dstate) (n : nat) : option dstate :=
+  match n with O => Some d | S n' => dbind (dstep lim d DSend) (λ d1, ddrain lim d1 n') end.
+Fixpoint dcalls_bad (lim : Z) (d : dstate) (n : N) (calls : list (list source)) : option (N * dstate) :=
+  match calls with
+  | [] => None
+  | ips :: r =>
+      match dbind (dfeed lim d ips) (λ d1, dbind (silent_to_call lim false d1) (λ d2,
+              dbind (dstep lim d2 (DCall [] false)) (λ d3, ddrain lim d3 (length ips)))) with
+      | Some d' => dcalls_bad lim d' (N.succ n) r
+      | None => Some (n, d)
+      end
+  end.
+
 Definition check_case (k : c12case) : bool :=
-  match first_bad (k_cfg k) init 0%N (k_steps k) with None => true | Some _ => false end.
+  match k with
+  | Case cfg steps => match first_bad cfg init 0%N steps with None => true | Some _ => false end
+  | DispCase lim fails evs => match dtrace_bad lim fails (d_init lim) 0%N evs with None => true | Some _ => false end
+  | AsyncCase lim calls => match dcalls_bad lim (d_init lim) 0%N calls with None => true | Some _ => false end
+  end.
 
 (* for a failing case: the step index and the model's projection after that step (v_enabled = true), or
    before it if the model cannot take the step at all (v_enabled = false) *)
@@ -105,12 +199,28 @@ Record view := View {
   v_last_peek : option (option (option instance))
 }.
 
-Definition explain_case (k : c12case) : option view :=
-  match first_bad (k_cfg k) init 0%N (k_steps k) with
+(* the loop's state before the first event / call the model cannot follow *)
+Record dview := DView {
+  dv_event : N; dv_phase : dphase; dv_ips : list source; dv_armed : bool; dv_tosend : list info;
+  dv_cancelled : bool; dv_calls : nat; dv_sent : nat
+}.
+Definition mk_dview (x : N * dstate) : dview :=
+  DView x.1 (d_phase x.2) (d_ips x.2) (d_armed x.2) (d_tosend x.2) (d_cancelled x.2)
+        (length (d_calls x.2)) (length (d_sent x.2)).
+
+Definition explain_lock (cfg : config) (steps : list (label * obs)) : option view :=
+  match first_bad cfg init 0%N steps with
   | None => None
   | Some (n, en, st) =>
       Some (View n en (map (λ kh, (kh.1, h_inst kh.2, (h_expires kh.2, h_access kh.2))) (map_to_list (cache st)))
                  (gauge_pos st, gauge_neg st, k_rpos (st_core st), k_rneg (st_core st))
                  (rev (to_lookup st)) (rev (to_return st)) (inflight st) (head (delivered st))
                  (snd <$> head (peeked st)))
+  end.
+
+Definition explain_case (k : c12case) : option view * option dview :=
+  match k with
+  | Case cfg steps => (explain_lock cfg steps, None)
+  | DispCase lim fails evs => (None, mk_dview <$> dtrace_bad lim fails (d_init lim) 0%N evs)
+  | AsyncCase lim calls => (None, mk_dview <$> dcalls_bad lim (d_init lim) 0%N calls)
   end.
